@@ -20,6 +20,7 @@ import datetime as _dt
 import decimal
 import http
 import io
+import json
 import re
 import uuid
 import warnings
@@ -311,6 +312,20 @@ class GenericAppError(Exception):
     """An application exception no handler is registered for."""
 
 
+class HandledAppError(Exception):
+    """An application exception whose registered handler answers 409 with the JSON document carried in the message."""
+
+
+def _handled_sync(req, resp, ex, params):
+    resp.status = 409
+    resp.media = json.loads(str(ex))
+
+
+async def _handled_async(req, resp, ex, params):
+    resp.status = 409
+    resp.media = json.loads(str(ex))
+
+
 def _dt_of(fields):
     return _dt.datetime(*fields, tzinfo=_UTC)
 
@@ -380,6 +395,8 @@ def apply_response(resp, rd):
         raise getattr(falcon, r[1])(r[2], headers=r[3])
     if what == 'generic':
         raise GenericAppError('vf generated application error')
+    if what == 'handled':
+        raise HandledAppError(json.dumps(r[1]))
     raise HarnessError('unknown raise spec %r' % (r,))
 
 
@@ -409,7 +426,7 @@ class Holder(object):
 def _respond(holder, resp):
     try:
         apply_response(resp, holder.case['resp'])
-    except (falcon.HTTPError, falcon.HTTPStatus, GenericAppError):
+    except (falcon.HTTPError, falcon.HTTPStatus, GenericAppError, HandledAppError):
         raise
     except HarnessError as e:
         holder.harness = e
@@ -433,7 +450,8 @@ def _make_sync(holder):
             # a body prepared and rendered early (as a digest / ETag hook would), then withdrawn again
             resp.media = pre[0]
             resp.render_body()
-            resp.media = None
+            if len(pre) < 2 or pre[1] != 'keep':
+                resp.media = None
         _respond(holder, resp)
 
     def responder(self, req, resp, **kw):
@@ -458,7 +476,8 @@ def _make_async(holder):
         if pre is not None:
             resp.media = pre[0]
             await resp.render_body()
-            resp.media = None
+            if len(pre) < 2 or pre[1] != 'keep':
+                resp.media = None
         _respond(holder, resp)
 
     async def responder(self, req, resp, **kw):
@@ -482,6 +501,7 @@ def build_app(asgi, opts):
         app.add_route(t, res)
     app.add_sink(sink, SINK_PREFIX)
     app.add_sink(sink, '/x')
+    app.add_error_handler(HandledAppError, _handled_async if asgi else _handled_sync)
     return app, holder
 
 
@@ -1140,7 +1160,8 @@ _redirects = st.tuples(
     st.sampled_from(['HTTPMovedPermanently', 'HTTPFound', 'HTTPSeeOther', 'HTTPTemporaryRedirect', 'HTTPPermanentRedirect']),
     st.sampled_from(['/new', 'https://example.com/path?a=1', '/caf%C3%A9', '//other.example/x', '']),
     st.sampled_from([None, None, {'X-Redirect': 'y'}, {'Cache-Control': 'no-cache'}])).map(list)
-_raises = g.weighted((10, st.none()), (5, _errors), (2, _http_status), (2, _redirects), (1, st.just(['generic'])))
+_raises = g.weighted((10, st.none()), (5, _errors), (2, _http_status), (2, _redirects), (1, st.just(['generic'])),
+                     (2, st.sampled_from([['handled', {'handled': True}], ['handled', [3]], ['handled', 'by-handler']])))
 
 responders = st.fixed_dictionaries({
     'status': _statuses,
@@ -1153,7 +1174,8 @@ responders = st.fixed_dictionaries({
     'props': st.lists(_props, max_size=2),
     'body': _resp_body,
     'raise': _raises,
-    'prerender': st.one_of(st.none(), st.none(), st.none(), st.sampled_from([[{'early': 1}], [[1, 2]], ['early']])),
+    # 'keep': the early document stays assigned (the responder body / a raised error / an error handler replace it later)
+    'prerender': st.one_of(st.none(), st.none(), st.none(), st.sampled_from([[{'early': 1}], [[1, 2]], ['early'], [{'early': 2}, 'keep'], [[7], 'keep']])),
 })
 _plain_responder = st.just({'status': None, 'set': [], 'append': [], 'ctype': None, 'cookies': [], 'unset': [], 'props': [],
                             'body': ['none', None], 'raise': None})
